@@ -368,6 +368,11 @@ def r4_no_result_on_failure(ctx):
 
 def r5_calibration_surfacing(ctx):
     """Every self._pygmo_archi.evolve() is followed on all paths by wait_check() (never wait()) before champions are read or the loop continues; DaskIsland computes its delayed evolution synchronously."""
+    # island creation evaluates the initial populations in worker threads: the islands are taken from an iteration
+    # over the map result (which re-raises a worker's exception), never pushed from inside the workers (C07.R5)
+    from props.C07 import r5_island_order
+
+    r5_island_order(ctx)
     f = ctx.func("pyxel.calibration.archipelago_datatree:ArchipelagoDataTree.run_evolve")
     g = ctx.cfg(f)
     ev = [c for c in calls_in(f.node) if isinstance(c.func, ast.Attribute) and c.func.attr == "evolve" and "archi" in norm(c.func.value)]
